@@ -1096,6 +1096,9 @@ func (c *FuncCtx) callRepo(st *State, key string, recv *recvInfo, x *ast.CallExp
 	if r, ok := c.inlinePure(st, key, fd, sig, rv, args, x.Pos()); ok {
 		return r
 	}
+	if r, ok := c.inlineBody(st, key, fd, sig, rv, args, x.Pos()); ok {
+		return r
+	}
 	limitf("%s: call of %s needs a contract (not a side-effect-free if/return chain)", c.eng.posStr(x.Pos()), key)
 	return nil
 }
@@ -2108,4 +2111,134 @@ func (e *Engine) synthPure(key string, fn *types.Func) *Contract {
 	con.Synth = true
 	e.spec.Contracts[key] = con
 	return con
+}
+
+// inlineBody executes the body of a package function that has no contract in
+// place of the call, when the body has no loop, does not call itself and takes
+// no address of a local (a helper extracted from a function under contract is
+// the typical case).  The outcomes of the body are merged into one state.
+func (c *FuncCtx) inlineBody(st *State, key string, fd *ast.FuncDecl, sig *types.Signature, recv *Val, args []*Val, pos token.Pos) ([]*Val, bool) {
+	if c.inlineDepth > 3 || c.inSpec(st) || fd == nil || fd.Body == nil || key == c.key {
+		return nil, false
+	}
+	ok := true
+	ast.Inspect(fd.Body, func(n ast.Node) bool {
+		switch x := n.(type) {
+		case *ast.ForStmt, *ast.RangeStmt, *ast.GoStmt, *ast.DeferStmt, *ast.SelectStmt, *ast.FuncLit, *ast.LabeledStmt:
+			ok = false
+		case *ast.BranchStmt:
+			if x.Tok == token.GOTO {
+				ok = false
+			}
+		case *ast.UnaryExpr:
+			if x.Op == token.AND {
+				if _, isLit := ast.Unparen(x.X).(*ast.CompositeLit); !isLit {
+					ok = false
+				}
+			}
+		case *ast.CallExpr:
+			if c.eng.calleeKeyOf(x) == key {
+				ok = false
+			}
+			if sel, isSel := x.Fun.(*ast.SelectorExpr); isSel && iteratorNames[sel.Sel.Name] {
+				ok = false
+			}
+		}
+		return ok
+	})
+	if !ok {
+		return nil, false
+	}
+	work := st.clone()
+	fr := &frame{decl: fd, parent: st.frame}
+	var bound []*types.Var
+	bind := func(id *ast.Ident, v *Val) {
+		if o, isVar := c.eng.info.Defs[id].(*types.Var); isVar && o != nil && v != nil {
+			work.vars[o] = v
+			bound = append(bound, o)
+		}
+	}
+	if fd.Recv != nil && len(fd.Recv.List) == 1 && len(fd.Recv.List[0].Names) == 1 {
+		bind(fd.Recv.List[0].Names[0], recv)
+	}
+	i := 0
+	if fd.Type.Params != nil {
+		for _, f := range fd.Type.Params.List {
+			for _, n := range f.Names {
+				if i < len(args) {
+					bind(n, args[i])
+				}
+				i++
+			}
+			if len(f.Names) == 0 {
+				i++
+			}
+		}
+	}
+	k := 0
+	if fd.Type.Results != nil {
+		for _, f := range fd.Type.Results.List {
+			names := f.Names
+			if len(names) == 0 {
+				names = []*ast.Ident{nil}
+			}
+			for _, n := range names {
+				var rv *types.Var
+				if n != nil {
+					rv, _ = c.eng.info.Defs[n].(*types.Var)
+				}
+				if rv == nil {
+					rv = types.NewVar(token.NoPos, c.eng.pkg.Types, fmt.Sprintf("$inl%d_r%d", c.inlineDepth, k), sig.Results().At(k).Type())
+				}
+				fr.results = append(fr.results, rv)
+				work.vars[rv] = c.val(c.eng.zero(rv.Type()), rv.Type())
+				bound = append(bound, rv)
+				k++
+			}
+		}
+	}
+	work.frame = fr
+	c.inlineDepth++
+	savedDecl := c.curDecl
+	c.curDecl = fd
+	outs := c.execBlock(work, fd.Body.List)
+	c.curDecl = savedDecl
+	c.inlineDepth--
+	var ends []*State
+	for _, o := range outs {
+		switch o.kind {
+		case oReturn:
+			ends = append(ends, o.st)
+		case oNext:
+			if sig.Results().Len() == 0 {
+				ends = append(ends, o.st)
+			}
+		default:
+			limitf("%s: break/continue escaped the body of %s", c.eng.posStr(pos), key)
+		}
+	}
+	m := c.mergeStates(ends)
+	if m == nil {
+		// the body cannot return (every path is dead): so is the caller's path
+		st.dead = true
+		st.assume(tFalse)
+		var rs []*Val
+		for j := 0; j < sig.Results().Len(); j++ {
+			rt := sig.Results().At(j).Type()
+			rs = append(rs, c.val(c.eng.zero(rt), rt))
+		}
+		return rs, true
+	}
+	var rs []*Val
+	for _, rv := range fr.results {
+		rs = append(rs, m.vars[rv])
+	}
+	for _, o := range bound {
+		delete(m.vars, o)
+	}
+	m.frame = st.frame
+	m.bound = st.bound
+	m.old = st.old
+	*st = *m
+	return rs, true
 }
